@@ -238,6 +238,6 @@ func TestVerif_C12(t *testing.T) {
 		},
 		CoqImports: []string{"YF.C12_Check"}, CoqType: "car_case",
 		CoqChecker: func(f map[string]bool) string { return "(check_car " + vh.CoqBool(f["g_car_section"]) + ")" },
-		CoqCase:    vc12CoqCase, MaxCoq: 1500,
+		CoqCase:    vc12CoqCase, MaxCoq: 500,
 	})
 }
